@@ -144,7 +144,7 @@ func (t *HostTable) LookupCluster(req *bfe_basic.Request) error {
 	// match basic route rules
 	basicRules, ok := t.productBasicRouteTree[req.Route.Product]
 	if ok {
-		host := strings.SplitN(req.HttpRequest.Host, ":", 2)[0]
+		host := hostnameStrip(req.HttpRequest.Host)
 
 		path := ""
 		if req.HttpRequest.URL != nil {
@@ -278,8 +278,19 @@ func (t *HostTable) findVipRoute(vip string) (route, error) {
 }
 
 // hostnameStrip remove ":port" in hostname.
+// hostname may be an IPv6 literal in square brackets, e.g. "[::1]:8080".
 func hostnameStrip(hostname string) string {
-	return strings.Split(hostname, ":")[0]
+	if strings.HasPrefix(hostname, "[") {
+		if i := strings.IndexByte(hostname, ']'); i >= 0 {
+			return hostname[:i+1]
+		}
+		return hostname
+	}
+
+	if i := strings.IndexByte(hostname, ':'); i >= 0 {
+		return hostname[:i]
+	}
+	return hostname
 }
 
 func buildHostRoute(conf host_rule_conf.HostConf) *trie.Trie {
